@@ -1,5 +1,8 @@
 // h_eval.cpp - monitors for C01 (value), C02 (derivatives), C03 (path independence),
 // C04 (centre lookup), C05 (memory safety of lookup + evaluation).
+#if defined(__x86_64__) || defined(__i386__)
+#include <xmmintrin.h>
+#endif
 #include "vf_ref.h"
 #include <photospline/cinter/splinetable.h>
 #include <stdexcept>
@@ -302,6 +305,9 @@ template <class F> static void c03_compare(const Spec &s, const Table &T, CHandl
 	for (int i = 0; i < nd; i++) if (c.p[i] != c2.p[i] || (C.ok && c.p[i] != c3.p[i])) { bad("searchcenters:centers-differ-between-paths", c.p[i], c2.p[i]); return; }
 	uint64_t h = s.hash(); for (double v : xv) h = hash_d(h, v); distinct(hash_mix(h, sizeof(F)));
 	bool isf = sizeof(F) == 4;
+#if defined(__x86_64__) || defined(__i386__)
+	_mm_setcsr(0x1F80); /* every comparison starts from the default floating-point control state of a fresh thread (the harness owns the environment between calls) */
+#endif
 	phase("value paths");
 	double v1 = T.template ndsplineeval<F>(x.p, c.p, 0), v2 = E.ndsplineeval(x.p, c.p, 0), v3 = E(x.p, 0);
 	count("comparisons:value");
@@ -341,6 +347,9 @@ template <class F> static void c03_compare(const Spec &s, const Table &T, CHandl
 		if (C.ok) { double e3 = ::ndsplineeval_deriv(&C.h, x.p, c.p, de.p); if (!biteq(e1, e3)) bad("ndsplineeval_deriv:member-vs-C", e1, e3); }
 		double e4 = T.ndsplineeval_deriv(x.p, c.p, nullptr); if (!biteq(e4, v1)) bad("ndsplineeval_deriv(nullptr)-vs-plain-value", e4, v1);
 	}
+	phase("value repeated after the other paths");
+	double v1r = T.template ndsplineeval<F>(x.p, c.p, 0); count("comparisons:value-repeated");
+	if (!biteq(v1r, v1)) bad("value:member-repeated-after-the-other-paths-differs", v1, v1r);
 }
 static void run_C03(const Args &a, long cs) {
 	Rng r(a.seed, "C03", cs);
@@ -365,6 +374,7 @@ static void run_C03(const Args &a, long cs) {
 		s.order.push_back(o); s.knots.push_back(gen_knots(r, o, nk, flavor, 1.0, r.U() * 4 - 2, false)); tot *= (size_t)(nk - o - 1);
 	}
 	s.coef.resize(tot); for (auto &c : s.coef) c = (float)(r.U() - 0.5);
+	if (r.coin(0.2)) { float sc = (float)std::pow(10.0, -(double)r.range(33, 42)); for (auto &c : s.coef) c *= sc; count("tables-with-coefficients-near-or-in-the-subnormal-range-of-float"); } // terms and sums subnormal in float: any path that treats them differently (flush-to-zero, another accumulation order) shows
 	s.flavor = std::string(knot_flavor_name(flavor)) + "/" + kind;
 	if (r.coin(0.3)) { add_custom_extents(r, s); count("tables-with-custom-extents"); }
 	Table T; if (!load(T, s)) { viol("C03:load:well-formed-table-rejected", s.full_json()); return; }
